@@ -11,6 +11,7 @@ import (
 	"bytes"
 	"fmt"
 	"net"
+	"sort"
 	"strings"
 	"testing"
 	"time"
@@ -207,6 +208,32 @@ func runC09Intact(t *testing.T, c c09Cfg, rep *Report) (reqLen, replyLen int) {
 			reqLen, replyLen = len(w.p.StreamsS2R[0]), len(w.p.StreamsR2S[0])
 		}
 		rp := c09Replay{Cfg: c, Kind: "intact"}
+		// whoever was asked must have been shown the other side's complete list, entry by entry
+		if c.Join && c.Merge != "none" {
+			shownOK := func(mg *mergeRec, other *ml.VSnap) string {
+				if mg.Calls == 0 {
+					return ""
+				}
+				var want []string
+				for i := range other.Recs {
+					r := &other.Recs[i]
+					want = append(want, fmt.Sprintf("%s|%s|%s|%d", r.Name, net.JoinHostPort(net.IP(r.Addr).String(), fmt.Sprint(r.Port)), r.Meta, r.State))
+				}
+				got := append([]string(nil), mg.LastFull...)
+				sort.Strings(want)
+				sort.Strings(got)
+				if strings.Join(want, ";") != strings.Join(got, ";") {
+					return fmt.Sprintf("shown [%s], the peer's list was [%s]", strings.Join(got, "; "), strings.Join(want, "; "))
+				}
+				return ""
+			}
+			if m := shownOK(w.mergeB, aBefore); m != "" {
+				rep.Violate("merge-delegate-shown-wrong-list:host", fmt.Sprintf("%v: %s", c, m), rp)
+			}
+			if m := shownOK(w.mergeA, bBefore); m != "" {
+				rep.Violate("merge-delegate-shown-wrong-list:initiator", fmt.Sprintf("%v: %s", c, m), rp)
+			}
+		}
 		vetoed := c.Join && (c.Merge == "veto-host" || c.Merge == "veto-initiator")
 		if c.Join && c.Merge == "veto-initiator" {
 			if n != 0 || err == nil {
